@@ -9,7 +9,10 @@ tie        : Gen.Views is regenerated from /repo on every run (tools/gen_c13.py)
              (Impl/C13Views.lean: registry, splice, execution) and on the Lean specification
              (Impl/C13Spec.lean: views denote rows), and — independently of both — on DuckDB directly over
              real tables holding the same rows (what the engine returns for q)
-search     : the same stream compares the implementation with the specification directly
+search     : the same stream compares the implementation with the specification directly; targeted families for the
+             classes random histories rarely reach: what the LAST steps of a registered frame are (distinct, orderBy,
+             limit, agg … must all be inside the CTE the view is read through), temp views that hide engine tables
+             which older views still read, CTEs named like views referenced in and out of their scope
 """
 from __future__ import annotations
 
@@ -32,6 +35,7 @@ SOURCES = [
     "SqlframeModel/Props/C13.lean",
     "SqlframeModel/Lemmas/C13.lean",
     "SqlframeModel/Lemmas/C13Splice.lean",
+    "SqlframeModel/Lemmas/C13Lexical.lean",
     "SqlframeModel/Lemmas/C13History.lean",
     "SqlframeModel/Impl/C13Views.lean",
     "SqlframeModel/Impl/C13Scope.lean",
@@ -46,7 +50,13 @@ SCHEMAS = [
     [("k", "int"), ("v", "int"), ("u", "str")],
 ]
 NEW_NAMES = ["j", "m", "n", "p"]
-DEFECT_HYPS = {"H_noUserCteShadowsView", "H_noCteNameClash", "H_distinctCteBodies", "H_reregisterKeepsColumns", "H_uniqueOutputNames", "H_starSourcesOrdered"}
+DEFECT_HYPS = {"H_noUserCteShadowsView", "H_noCteNameClash", "H_noCteCapturesViewTable", "H_distinctCteBodies", "H_reregisterKeepsColumns", "H_uniqueOutputNames", "H_starSourcesOrdered"}
+
+# DuckDB 1.2.2 pushes the dynamic min/max filter of a hash join into table scans *below* an ORDER BY … LIMIT (TOP_N) on
+# the probe side: `WITH c AS (SELECT … FROM t ORDER BY … LIMIT 2) SELECT … FROM c JOIN t …` then returns rows that are
+# not among the first two (and varying ones with several threads).  An engine defect, independent of sqlframe (the same
+# text run directly shows it); both connections of the harness switch that optimizer pass off.
+ENGINE_SETUP = ["SET threads=1", "SET disabled_optimizers='join_filter_pushdown'"]
 
 tuple_ = None  # set below
 
@@ -91,6 +101,15 @@ def expr_sql(e: t.Any) -> str:
     raise ValueError(e)
 
 
+def order_sql(name: str, desc: bool) -> str:
+    """Spark's default null ordering, spelled out: ascending keys put NULL first, descending keys last"""
+    return f"{name} DESC NULLS LAST" if desc else f"{name} ASC NULLS FIRST"
+
+
+def ord_keys(keys: t.List[t.Any]) -> t.List[dict]:
+    return [{"name": n, "desc": bool(d), "nullsFirst": not d} for n, d in keys]
+
+
 def src_alias(s: dict) -> str:
     return s["a"] if s.get("a") else s["t"].lower()
 
@@ -126,6 +145,8 @@ def block_sql(b: dict) -> str:
         out += f" WHERE {expr_sql(b['where'])}"
     if sel["k"] == "agg" and sel["keys"]:
         out += " GROUP BY " + ", ".join(c for _, c in sel["keys"])
+    if b.get("top"):
+        out += " ORDER BY " + ", ".join(order_sql(n, d) for n, d in b["top"]["keys"]) + f" LIMIT {b['top']['n']}"
     return out
 
 
@@ -134,6 +155,37 @@ def query_sql(q: dict) -> str:
     if q["ctes"]:
         w = "WITH " + ", ".join(f"{n} AS ({block_sql(b)})" for n, b in q["ctes"]) + " "
     return w + block_sql(q["final"])
+
+
+def _lex_block(b: dict, scope: t.Dict[str, str]) -> dict:
+    if "union" in b:
+        return {"union": [_lex_block(x, scope) for x in b["union"]]}
+    if "lit" in b:
+        return b
+    nb = dict(b)
+    srcs = []
+    for s_ in b["src"]:
+        if "t" in s_:
+            new = scope.get(s_["t"].lower())
+            srcs.append({"t": new, "a": src_alias(s_)} if new else s_)
+        else:
+            srcs.append({"sub": _lex_block(s_["sub"], scope), "a": s_["a"]})
+    nb["src"] = srcs
+    return nb
+
+
+def lexical_query(q: dict) -> dict:
+    """the statement with Spark's scoping made explicit: every CTE gets a name of its own and every reference is
+    bound to the nearest CTE of that name defined *before* it (else it keeps meaning the view / table), so that an
+    engine that binds a WITH list by name reads it the way Spark does"""
+    scope: t.Dict[str, str] = {}
+    ctes = []
+    for i, (n, b) in enumerate(q["ctes"]):
+        nb = _lex_block(b, scope)
+        new = f"{n.lower()}__{i}"
+        ctes.append([new, nb])
+        scope[n.lower()] = new
+    return {"ctes": ctes, "final": _lex_block(q["final"], scope)}
 
 
 def src_body(s: dict) -> t.Any:
@@ -162,11 +214,94 @@ def block_body(b: dict) -> t.Any:
         body = {"un": {"op": {"agg": {"keys": [[n, c] for n, c in sel["keys"]], "aggs": [[n, [fn, c or ""]] for n, fn, c in sel["aggs"]]}}, "b": body}}
     if b.get("distinct"):
         body = {"un": {"op": "distinct", "b": body}}
+    if b.get("top"):
+        body = {"un": {"op": {"sort": {"keys": ord_keys(b["top"]["keys"])}}, "b": body}}
+        body = {"un": {"op": {"limit": {"n": b["top"]["n"]}}, "b": body}}
     return body
 
 
 def query_lean(q: dict) -> t.Any:
     return {"ctes": [[n, block_body(b)] for n, b in q["ctes"]], "final": block_body(q["final"])}
+
+
+def op_lean(op: dict) -> t.Any:
+    k = op["k"]
+    if k == "where":
+        return {"filter": {"p": X.to_lean(_tuple(op["p"]))}}
+    if k == "select":
+        return {"project": {"items": [[n, X.to_lean(_tuple(e))] for n, e in op["items"]]}}
+    if k == "distinct":
+        return "distinct"
+    if k == "sort":
+        return {"sort": {"keys": ord_keys(op["keys"])}}
+    if k == "limit":
+        return {"limit": {"n": op["n"]}}
+    if k == "agg":
+        return {"agg": {"keys": [[c, c] for c in op["keys"]], "aggs": [[n, [fn, c or ""]] for n, fn, c in op["aggs"]]}}
+    raise ValueError(k)
+
+
+def op_apply(df: t.Any, op: dict, F: t.Any) -> t.Any:
+    """the DataFrame call of a transform event"""
+    k = op["k"]
+    if k == "where":
+        return df.where(X.to_column(_tuple(op["p"]), F))
+    if k == "select":
+        return df.select(*[X.to_column(_tuple(e), F).alias(n) for n, e in op["items"]])
+    if k == "distinct":
+        return df.dropDuplicates() if op.get("via") == "dropDuplicates" else df.distinct()
+    if k == "sort":
+        return df.orderBy(*[(F.col(n).desc() if d else F.col(n).asc()) for n, d in op["keys"]])
+    if k == "limit":
+        return df.limit(op["n"])
+    if k == "agg":
+        aggs = []
+        for n, fn, c in op["aggs"]:
+            col = F.count(F.lit(1)) if fn == "countStar" else getattr(F, fn)(F.col(c))
+            aggs.append(col.alias(n))
+        return df.groupBy(*op["keys"]).agg(*aggs) if op["keys"] else df.agg(*aggs)
+    raise ValueError(k)
+
+
+def op_show(op: dict) -> str:
+    k = op["k"]
+    if k == "where":
+        return f"where({X.show(_tuple(op['p']))})"
+    if k == "select":
+        return "select(" + ", ".join(f"{X.show(_tuple(e))}.alias({n!r})" for n, e in op["items"]) + ")"
+    if k == "distinct":
+        return (op.get("via") or "distinct") + "()"
+    if k == "sort":
+        return "orderBy(" + ", ".join(f"col({n!r}).{'desc' if d else 'asc'}()" for n, d in op["keys"]) + ")"
+    if k == "limit":
+        return f"limit({op['n']})"
+    if k == "agg":
+        a = ", ".join(("count(lit(1))" if fn == "countStar" else f"{fn}({c!r})") + f".alias({n!r})" for n, fn, c in op["aggs"])
+        return (f"groupBy({', '.join(repr(c) for c in op['keys'])})." if op["keys"] else "") + f"agg({a})"
+    return str(op)
+
+
+def op_oracle_sql(op: dict, src: str, sort_keys: t.Optional[list]) -> t.Optional[str]:
+    """the same step as SQL over the materialised input (None: not expressible without the input's order)"""
+    k = op["k"]
+    if k == "where":
+        return f"select * from {src} where {expr_sql(op['p'])}"
+    if k == "select":
+        return "select " + ", ".join(f"{expr_sql(e)} as {n}" for n, e in op["items"]) + f" from {src}"
+    if k == "distinct":
+        return f"select distinct * from {src}"
+    if k == "sort":
+        return f"select * from {src}"
+    if k == "limit":
+        if not sort_keys:
+            return None
+        return f"select * from {src} order by " + ", ".join(order_sql(n, d) for n, d in sort_keys) + f" limit {op['n']}"
+    if k == "agg":
+        parts = [c for c in op["keys"]]
+        for n, fn, c in op["aggs"]:
+            parts.append(("count(*)" if fn == "countStar" else f"{fn}({c})") + f" as {n}")
+        return "select " + ", ".join(parts) + f" from {src}" + (" group by " + ", ".join(op["keys"]) if op["keys"] else "")
+    raise ValueError(k)
 
 
 def ev_lean(ev: dict) -> t.Any:
@@ -180,10 +315,7 @@ def ev_lean(ev: dict) -> t.Any:
     if k == "sql":
         return {"sql": {"q": query_lean(ev["q"])}}
     if k == "transform":
-        op = ev["op"]
-        if op["k"] == "where":
-            return {"transform": {"i": ev["i"], "op": {"filter": {"p": X.to_lean(_tuple(op["p"]))}}}}
-        return {"transform": {"i": ev["i"], "op": {"project": {"items": [[n, X.to_lean(_tuple(e))] for n, e in op["items"]]}}}}
+        return {"transform": {"i": ev["i"], "op": op_lean(ev["op"])}}
     if k == "joinBack":
         return {"joinBack": {"i": ev["i"], "name": ev["name"], "k": ev["on"]}}
     raise ValueError(k)
@@ -208,10 +340,7 @@ def show_event(ev: dict) -> str:
     if k == "sql":
         return f"session.sql({query_sql(ev['q'])!r})"
     if k == "transform":
-        op = ev["op"]
-        if op["k"] == "where":
-            return f"f{ev['i']}.where({X.show(_tuple(op['p']))})"
-        return f"f{ev['i']}.select(" + ", ".join(f"{X.show(_tuple(e))}.alias({n!r})" for n, e in op["items"]) + ")"
+        return f"f{ev['i']}." + op_show(ev["op"])
     if k == "joinBack":
         return f"f{ev['i']}.join(session.table({ev['name']!r}), on={ev['on']!r})"
     return str(ev)
@@ -248,15 +377,19 @@ def unique(names: t.Sequence[str]) -> bool:
 
 
 class QGen:
-    def __init__(self, rng: random.Random, views: t.Dict[str, list], tables: t.Dict[str, list]):
+    def __init__(self, rng: random.Random, views: t.Dict[str, list], tables: t.Dict[str, list], clash: float = 0.15, avoid: t.Collection[str] = ()):
         self.rng = rng
         self.views = views
         self.tables = tables
+        self.clash = clash  # how often a CTE of the statement takes the name of a registered view
+        # view names that are also CTE names inside a registered view's chain: a CTE of that name would be the
+        # listed finding H_noCteNameClash (kept to the names c / d, where the model is validated for it)
+        self.avoid = set(avoid)
 
     def env(self) -> t.List[t.Tuple[str, list, str]]:
-        """(name as written, schema, kind)"""
+        """(name as written, schema, kind); a view hides an engine table of the same name"""
         out = [(variant(self.rng, n), sch, "view") for n, sch in self.views.items()]
-        out += [(n, sch, "table") for n, sch in self.tables.items()]
+        out += [(n, sch, "table") for n, sch in self.tables.items() if n not in self.views]
         return out
 
     def lit_block(self) -> t.Tuple[dict, list]:
@@ -280,6 +413,8 @@ class QGen:
                     # a union partner with the same types
                     b2, s2 = self.block(env, 0, True)
                     if [ty for _, ty in s1] == [ty for _, ty in s2] and "lit" not in b1:
+                        b1.pop("top", None)  # ORDER BY / LIMIT of a UNION operand would need parentheses
+                        b2.pop("top", None)
                         sub, sch = {"union": [b1, b2]}, s1
                     else:
                         sub, sch = b1, s1
@@ -373,6 +508,11 @@ class QGen:
             out = [(n_, ty) for n_, _, ty in items]
             if r.random() < 0.1:
                 b["distinct"] = True
+        if r.random() < 0.07 and unique([n_ for n_, _ in out]):
+            # ORDER BY every output column (a total order up to identical rows) + LIMIT: which rows, not in which order
+            ks = [[n_, r.random() < 0.5] for n_, _ in out]
+            r.shuffle(ks)
+            b["top"] = {"keys": ks, "n": r.randint(1, 3)}
         return b, out
 
     def query(self) -> t.Tuple[dict, list]:
@@ -384,12 +524,16 @@ class QGen:
         for i in range(n):
             name = ["c", "d"][i]
             cur_env = env + cte_env
-            if i == 0 and self.views and r.random() < 0.1:
-                # a CTE named like a registered view (the statement's own name must win); it comes first and its
-                # body avoids that name, so that Spark's ordered and DuckDB's name-based WITH scoping agree
-                name = r.choice(list(self.views))
-                cur_env = [e for e in cur_env if e[0].lower() != name]
-            if i == 1 and r.random() < 0.06:
+            free = [v for v in self.views if v not in [c_[0] for c_ in ctes] and v not in self.avoid]
+            if free and r.random() < self.clash:
+                # a CTE named like a registered view.  Scoping is Spark's: the CTE is visible to the definitions that
+                # follow it and to the main query; inside its own definition and in earlier definitions the name
+                # still means the view (so the body may read the view it is about to hide)
+                name = r.choice(free)
+                if r.random() < 0.6:
+                    cur_env = [e for e in cur_env if e[0].lower() == name] * 3 + cur_env  # likely a self reference
+            if i == 1 and r.random() < 0.06 and ctes[0][0] not in self.views:
+                # the same text twice (a copy of a definition that reads the view it hides would read the CTE instead)
                 body, sch = copy.deepcopy(ctes[0][1]), cte_env[0][1]
             else:
                 body, sch = self.block(cur_env, 1, True)
@@ -405,6 +549,68 @@ class QGen:
         return {"ctes": ctes, "final": final}, sch
 
 
+AGG_NAMES = ["n", "m"]
+
+
+def gen_transform(rng: random.Random, sch: list, sorted_keys: t.Optional[list]) -> t.Tuple[dict, list, t.Optional[list]]:
+    """one DataFrame step on a frame with schema `sch` (pairwise distinct names): (op, new schema, sort keys the result
+    ends with).  `limit` is only drawn directly after an orderBy over *all* columns (which rows, not which order)."""
+    g = X.Gen(rng, dict(sch))
+    c2 = rng.random()
+    if sorted_keys and c2 < 0.5:
+        return {"k": "limit", "n": rng.randint(1, 3)}, list(sch), None
+    if c2 < 0.3:
+        return {"k": "where", "p": g.bool_expr(rng.choice([1, 2]))}, list(sch), None
+    if c2 < 0.4 and len(sch) > 1:
+        # the same columns in another order (a later re-registration under the same name must show the new order)
+        perm = list(sch)
+        while perm == list(sch):
+            rng.shuffle(perm)
+        return {"k": "select", "items": [[c_, ("col", c_)] for c_, _ in perm]}, perm, None
+    if c2 < 0.55:
+        return {"k": "distinct", "via": rng.choice(["distinct", "dropDuplicates"])}, list(sch), None
+    if c2 < 0.7:
+        ks = [[c_, rng.random() < 0.5] for c_, _ in sch]
+        rng.shuffle(ks)
+        return {"k": "sort", "keys": ks}, list(sch), ks
+    if c2 < 0.8:
+        keys = [rng.choice(sch)[0]] if rng.random() < 0.75 else []
+        rest = [x for x in sch if x[0] not in keys]
+        aggs = []
+        out = [x for x in sch if x[0] in keys]
+        for nm_ in AGG_NAMES[: rng.randint(1, 2)]:
+            if nm_ in [c_ for c_, _ in sch]:
+                continue
+            ints = [c_ for c_, ty in rest if ty == "int"]
+            fn = rng.choice(["countStar", "count", "sum", "min", "max"])
+            if fn == "countStar" or not rest:
+                aggs.append([nm_, "countStar", None])
+                out.append((nm_, "int"))
+            elif fn == "sum":
+                if not ints:
+                    continue
+                aggs.append([nm_, fn, rng.choice(ints)])
+                out.append((nm_, "int"))
+            else:
+                c_, ty = rng.choice(rest)
+                aggs.append([nm_, fn, c_])
+                out.append((nm_, "int" if fn == "count" else ty))
+        if aggs:
+            return {"k": "agg", "keys": keys, "aggs": aggs}, out, None
+    items = []
+    names = []
+    if any(c_ == "k" for c_, _ in sch) and rng.random() < 0.8:
+        items.append(["k", ("col", "k"), "int"])
+        names.append("k")
+    for _ in range(rng.randint(1, 2)):
+        e, ty = g.any_expr(2)
+        cand_n = [x for x in NEW_NAMES + [c_ for c_, _ in sch] if x not in names]
+        n_ = rng.choice(cand_n)
+        items.append([n_, e, ty])
+        names.append(n_)
+    return {"k": "select", "items": [[n_, e] for n_, e, _ in items]}, [(n_, ty) for n_, _, ty in items], None
+
+
 def gen_case(rng: random.Random, max_events: int = 6) -> dict:
     tables: t.Dict[str, dict] = {}
     tsch: t.Dict[str, list] = {}
@@ -416,74 +622,76 @@ def gen_case(rng: random.Random, max_events: int = 6) -> dict:
     frames: t.List[list] = []  # schema per frame
     joined: t.Set[int] = set()  # frames that are (descendants of) join-back results: C02's territory from there on
     from_sql: t.Set[int] = set()  # results of session.sql and DataFrame transformations of them
+    skeys: t.Dict[int, list] = {}  # frames that end with an orderBy over all their columns (also: read back from a view of one)
+    vkeys: t.Dict[str, list] = {}
     views: t.Dict[str, list] = {}
+    fctes: t.List[t.Set[str]] = []  # per frame: names of statement CTEs in its chain (upper bound)
+    vctes: t.Dict[str, t.Set[str]] = {}
     for _ in range(rng.randint(1, 3)):
         sch = rng.choice(SCHEMAS)
         events.append({"ev": "create", "schema": sch, "rows": X.gen_table(rng, dict(sch), 5)})
         frames.append(sch)
+        fctes.append(set())
+    if tables and rng.random() < 0.6:
+        # a frame read from the engine table (before any view can hide that name)
+        events.append({"ev": "table", "name": "tb"})
+        frames.append(tsch["tb"])
+        fctes.append(set())
 
     def registrable() -> t.List[int]:
         return [i for i, s in enumerate(frames) if s and unique([c for c, _ in s])]
 
+    def view_name() -> str:
+        if tables and rng.random() < 0.25:
+            return "tb"  # a temp view that hides an engine table of the same name
+        # re-registration is likely: few names
+        return rng.choice(VIEW_NAMES[:2] if rng.random() < 0.7 else VIEW_NAMES)
+
+    def do_register(i: int, nm_: str) -> None:
+        events.append({"ev": "register", "name": variant(rng, nm_), "i": i})
+        views[nm_] = frames[i]
+        vctes[nm_] = fctes[i]
+        vkeys.pop(nm_, None)
+        if i in skeys:
+            vkeys[nm_] = skeys[i]
+
     # first registration
-    i = rng.choice(registrable())
-    nm_ = rng.choice(VIEW_NAMES)
-    events.append({"ev": "register", "name": variant(rng, nm_), "i": i})
-    views[nm_] = frames[i]
+    do_register(rng.choice(registrable()), rng.choice(VIEW_NAMES))
     n_more = rng.randint(2, max_events - 1)
     for _ in range(n_more):
         c = rng.random()
         if c < 0.2:
-            i = rng.choice(registrable())
-            # re-registration is likely: few names
-            nm_ = rng.choice(VIEW_NAMES[:2] if rng.random() < 0.7 else VIEW_NAMES)
-            events.append({"ev": "register", "name": variant(rng, nm_), "i": i})
-            views[nm_] = frames[i]
+            do_register(rng.choice(registrable()), view_name())
         elif c < 0.3:
             nm_ = rng.choice(list(views) + (["tb"] if tables and rng.random() < 0.3 else []))
             events.append({"ev": "table", "name": variant(rng, nm_) if nm_ != "tb" else nm_})
+            if nm_ in vkeys:
+                skeys[len(frames)] = vkeys[nm_]
             frames.append(views.get(nm_) or tsch[nm_])
-        elif c < 0.7:
-            q, sch = QGen(rng, views, tsch).query()
+            fctes.append(vctes.get(nm_, set()))
+        elif c < 0.68:
+            inherited = set().union(*vctes.values()) if vctes else set()
+            q, sch = QGen(rng, views, tsch, avoid=inherited).query()
             events.append({"ev": "sql", "q": q})
             from_sql.add(len(frames))
             frames.append(sch)
-        elif c < 0.85:
+            fctes.append(inherited | {c_[0] for c_ in q["ctes"]})
+        elif c < 0.87:
             cand = [i for i, s in enumerate(frames) if s and unique([c_ for c_, _ in s])]
             if not cand:
                 continue
-            i = rng.choice(cand)
-            sch = frames[i]
-            g = X.Gen(rng, dict(sch))
+            srt = [i for i in cand if i in skeys]
+            i = rng.choice(srt) if srt and rng.random() < 0.4 else rng.choice(cand)
             if i in joined:
                 joined.add(len(frames))
             if i in from_sql:
                 from_sql.add(len(frames))
-            c2 = rng.random()
-            if c2 < 0.45:
-                events.append({"ev": "transform", "i": i, "op": {"k": "where", "p": g.bool_expr(rng.choice([1, 2]))}})
-                frames.append(sch)
-            elif c2 < 0.6 and len(sch) > 1:
-                # the same columns in another order (a later re-registration under the same name must show the new order)
-                perm = list(sch)
-                while perm == list(sch):
-                    rng.shuffle(perm)
-                events.append({"ev": "transform", "i": i, "op": {"k": "select", "items": [[c_, ("col", c_)] for c_, _ in perm]}})
-                frames.append(perm)
-            else:
-                items = []
-                names = []
-                if any(c_ == "k" for c_, _ in sch) and rng.random() < 0.8:
-                    items.append(["k", ("col", "k"), "int"])
-                    names.append("k")
-                for _ in range(rng.randint(1, 2)):
-                    e, ty = g.any_expr(2)
-                    cand_n = [x for x in NEW_NAMES + [c_ for c_, _ in sch] if x not in names]
-                    n_ = rng.choice(cand_n)
-                    items.append([n_, e, ty])
-                    names.append(n_)
-                events.append({"ev": "transform", "i": i, "op": {"k": "select", "items": [[n_, e] for n_, e, _ in items]}})
-                frames.append([(n_, ty) for n_, _, ty in items])
+            op, sch, ks = gen_transform(rng, frames[i], skeys.get(i))
+            events.append({"ev": "transform", "i": i, "op": op})
+            if ks:
+                skeys[len(frames)] = ks
+            frames.append(sch)
+            fctes.append(fctes[i])
         else:
             # join back: a result of session.sql (possibly transformed further) joined with a registered view.
             # (a frame obtained from session.table / createDataFrame joined with *itself* is C02's self-join case)
@@ -499,6 +707,7 @@ def gen_case(rng: random.Random, max_events: int = 6) -> dict:
             events.append({"ev": "joinBack", "i": i, "name": variant(rng, v), "on": "k"})
             joined.add(len(frames))
             frames.append([("k", "int")] + [x for x in frames[i] if x[0] != "k"] + [x for x in views[v] if x[0] != "k"])
+            fctes.append(fctes[i] | vctes.get(v, set()))
     return {"tables": tables, "events": events}
 
 
@@ -527,6 +736,8 @@ def run_impl(c: dict) -> dict:
     s = vlib.fresh_duckdb_session()
     from sqlframe.duckdb import functions as F
 
+    for stmt in ENGINE_SETUP:
+        s._conn.execute(stmt)
     for n, tb in c.get("tables", {}).items():
         ddl = ", ".join(f"{c_} {'bigint' if ty == 'int' else 'varchar'}" for c_, ty in tb["schema"])
         s._conn.execute(f"create table {n} ({ddl})")
@@ -545,18 +756,22 @@ def run_impl(c: dict) -> dict:
                 df = X.make_df(s, dict(ev["schema"]), ev["rows"])
             elif k == "register":
                 frames[ev["i"]].createOrReplaceTempView(ev["name"])
-                obs.append({"kind": "register", "keys": sorted(s.temp_views.keys())})
+                o = {"kind": "register", "keys": sorted(s.temp_views.keys())}
+                try:
+                    # what the session catalog shows: the temp views it lists, and the columns it reports for this one
+                    o["listed"] = sorted(t_.name for t_ in s.catalog.listTables() if t_.isTemporary)
+                    o["cols"] = [c_.name for c_ in s.catalog.listColumns(ev["name"])]
+                    o["df_cols"] = list(frames[ev["i"]].columns)
+                except Exception as e:  # noqa
+                    o["err"] = f"catalog: {type(e).__name__}: {str(e)[:160]}"
+                obs.append(o)
                 continue
             elif k == "table":
                 df = s.table(ev["name"])
             elif k == "sql":
                 df = s.sql(query_sql(ev["q"]))
             elif k == "transform":
-                op = ev["op"]
-                if op["k"] == "where":
-                    df = frames[ev["i"]].where(X.to_column(_tuple(op["p"]), F))
-                else:
-                    df = frames[ev["i"]].select(*[X.to_column(_tuple(e), F).alias(n) for n, e in op["items"]])
+                df = op_apply(frames[ev["i"]], ev["op"], F)
             elif k == "joinBack":
                 df = frames[ev["i"]].join(s.table(ev["name"]), on=ev["on"])
             else:
@@ -570,7 +785,13 @@ def run_impl(c: dict) -> dict:
                 frames.append(None)
                 obs.append({"err": f"{type(e).__name__}: {str(e)[:160]}"})
     final = [observe(df) for df in frames]
-    return {"obs": obs, "final": final, "stop": stop}
+    raw = []
+    for st in c.get("raw", []):
+        try:
+            raw.append(observe(s.sql(st["sql"])))
+        except Exception as e:  # noqa
+            raw.append({"err": f"{type(e).__name__}: {str(e)[:160]}"})
+    return {"obs": obs, "final": final, "stop": stop, "raw": raw}
 
 
 # ------------------------------------------------------------------------------------------------
@@ -578,13 +799,18 @@ def run_impl(c: dict) -> dict:
 # ------------------------------------------------------------------------------------------------
 
 
-def run_oracle(c: dict) -> t.List[t.Optional[dict]]:
-    """per frame-producing event: {"cols","rows"} | {"err"} | None (oracle not applicable from here on)"""
+def run_oracle(c: dict, raw: bool = False) -> t.List[t.Optional[dict]]:
+    """per frame-producing event: {"cols","rows"} | {"err"} | None (oracle not applicable from here on);
+    with raw=True: the results of the case's extra statements (text given to the engine as it is) instead"""
     import duckdb
 
     con = duckdb.connect(":memory:")
+    for stmt in ENGINE_SETUP:
+        con.execute(stmt)
     out: t.List[t.Optional[dict]] = []
     mat: t.List[t.Optional[str]] = []  # materialised table name per frame
+    skeys: t.Dict[int, list] = {}  # frame -> sort keys of the orderBy it ends with (also through a view of it)
+    vkeys: t.Dict[str, list] = {}  # view name -> sort keys of the registered frame
     dead = False
 
     def fetch(sql: str) -> dict:
@@ -631,12 +857,17 @@ def run_oracle(c: dict) -> t.List[t.Optional[dict]]:
                 dead = True
                 continue
             con.execute(f"create or replace table {ev['name'].lower()} as select * from {mat[ev['i']]}")
+            vkeys.pop(ev["name"].lower(), None)
+            if ev["i"] in skeys:
+                vkeys[ev["name"].lower()] = skeys[ev["i"]]
         elif k == "table":
             m, o = materialise(j, f"select * from {ev['name'].lower()}")
+            if ev["name"].lower() in vkeys:
+                skeys[j] = vkeys[ev["name"].lower()]
             mat.append(m)
             out.append(o)
         elif k == "sql":
-            m, o = materialise(j, query_sql(ev["q"]))
+            m, o = materialise(j, query_sql(lexical_query(ev["q"])))
             mat.append(m)
             out.append(o)
         elif k == "transform":
@@ -646,10 +877,14 @@ def run_oracle(c: dict) -> t.List[t.Optional[dict]]:
                 mat.append(None)
                 continue
             op = ev["op"]
-            if op["k"] == "where":
-                sql = f"select * from {mat[ev['i']]} where {expr_sql(op['p'])}"
-            else:
-                sql = "select " + ", ".join(f"{expr_sql(e)} as {n}" for n, e in op["items"]) + f" from {mat[ev['i']]}"
+            sql = op_oracle_sql(op, mat[ev["i"]], skeys.get(ev["i"]))
+            if sql is None:
+                dead = True
+                out.append(None)
+                mat.append(None)
+                continue
+            if op["k"] == "sort":
+                skeys[j] = op["keys"]
             m, o = materialise(j, sql)
             mat.append(m)
             out.append(o)
@@ -667,7 +902,98 @@ def run_oracle(c: dict) -> t.List[t.Optional[dict]]:
             m, o = materialise(j, sql)
             mat.append(m)
             out.append(o)
+    if raw:
+        res: t.List[t.Optional[dict]] = []
+        for st in c.get("raw", []):
+            if dead:
+                res.append(None)
+                continue
+            try:
+                res.append(fetch(st.get("engine") or st["sql"]))
+            except Exception as e:  # noqa
+                res.append({"err": f"{type(e).__name__}: {str(e)[:120]}"})
+        return res
     return out
+
+
+# ------------------------------------------------------------------------------------------------
+# statement shapes outside the Lean statement language: implementation vs the engine run directly
+# ------------------------------------------------------------------------------------------------
+
+# {a}, {b}: two registered view names (as written, case variants included); every view has an integer column k.
+# "engine" is the text for the direct run where Spark's reading has to be spelled out for DuckDB.
+RAW_TEMPLATES: t.List[t.Tuple[str, str, t.Optional[str]]] = [
+    ("in_subquery", "SELECT x.k AS k FROM {a} AS x WHERE x.k IN (SELECT y.k FROM {b} AS y)", None),
+    ("not_in_literal_list_and_subquery", "SELECT x.k AS k FROM {a} AS x WHERE x.k NOT IN (SELECT y.k FROM {b} AS y WHERE y.k IS NOT NULL)", None),
+    ("exists_correlated", "SELECT x.k AS k FROM {a} AS x WHERE EXISTS (SELECT 1 FROM {b} AS y WHERE y.k = x.k)", None),
+    ("scalar_subquery", "SELECT x.k AS k, (SELECT MAX(y.k) FROM {b} AS y) AS m FROM {a} AS x", None),
+    ("left_join_null", "SELECT x.k AS k FROM {a} AS x LEFT JOIN {b} AS y ON x.k = y.k WHERE y.k IS NULL", None),
+    ("nested_predicates", "SELECT x.k AS k FROM {a} AS x WHERE x.k >= (SELECT MIN(y.k) FROM {b} AS y WHERE y.k IN (SELECT z.k FROM {a} AS z))", None),
+    ("cte_used_in_predicate", "WITH c AS (SELECT y.k AS k FROM {b} AS y) SELECT x.k AS k FROM {a} AS x WHERE x.k IN (SELECT c.k FROM c)", None),
+    ("cte_named_like_view_in_predicate", "WITH {bl} AS (SELECT 2 AS k) SELECT x.k AS k FROM {a} AS x WHERE x.k IN (SELECT y.k FROM {bl} AS y)", None),
+    (
+        "cte_reads_view_it_hides_in_predicate",
+        "WITH {al} AS (SELECT x.k AS k FROM {al} AS x WHERE x.k IN (SELECT y.k FROM {b} AS y)) SELECT {al}.k AS k FROM {al}",
+        "WITH c__0 AS (SELECT x.k AS k FROM {al} AS x WHERE x.k IN (SELECT y.k FROM {b} AS y)) SELECT c__0.k AS k FROM c__0",
+    ),
+    ("nested_with_in_derived_table", "SELECT q.k AS k FROM (WITH c AS (SELECT x.k AS k FROM {a} AS x) SELECT c.k AS k FROM c) AS q JOIN {b} AS y ON q.k = y.k", None),
+    ("group_having", "SELECT x.k AS k, COUNT(*) AS n FROM {a} AS x GROUP BY x.k HAVING COUNT(*) > 1", None),
+    ("self_join_of_a_view", "SELECT x.k AS k, y.k AS j FROM {a} AS x JOIN {a} AS y ON x.k = y.k", None),
+    ("view_in_both_from_and_predicate", "SELECT x.k AS k FROM {a} AS x JOIN {b} AS y ON x.k = y.k WHERE y.k IN (SELECT z.k FROM {a} AS z WHERE z.k > 0)", None),
+    ("union_in_derived_table", "SELECT q.k AS k FROM (SELECT x.k AS k FROM {a} AS x UNION ALL SELECT y.k AS k FROM {b} AS y) AS q WHERE q.k IS NOT NULL", None),
+    ("case_and_between", "SELECT CASE WHEN x.k BETWEEN 1 AND 2 THEN 1 ELSE 0 END AS f, COUNT(*) AS n FROM {a} AS x GROUP BY CASE WHEN x.k BETWEEN 1 AND 2 THEN 1 ELSE 0 END", None),
+]
+
+
+def gen_raw_case(rng: random.Random) -> dict:
+    """two (or three) views over frames that end in different DataFrame steps, optionally an engine table hidden by a
+    view, a re-registration; then every template as an extra statement"""
+    events: t.List[dict] = []
+    frames: t.List[list] = []
+    tables: t.Dict[str, dict] = {}
+    for _ in range(2):
+        sch = rng.choice(SCHEMAS)
+        events.append({"ev": "create", "schema": sch, "rows": _rows(rng, sch, 4)})
+        frames.append(list(sch))
+    if rng.random() < 0.4:
+        sch = rng.choice(SCHEMAS[:3])
+        tables["tb"] = {"schema": sch, "rows": _rows(rng, sch, 3)}
+        events.append({"ev": "table", "name": "tb"})
+        frames.append(list(sch))
+    for i in range(len(frames)):
+        if rng.random() < 0.5:
+            op, sch2, _ = gen_transform(rng, frames[i], None)
+            if op["k"] != "limit" and ("k", "int") in sch2 and unique([c_ for c_, _ in sch2]):
+                events.append({"ev": "transform", "i": i, "op": op})
+                frames.append(sch2)
+    ok = [i for i, s_ in enumerate(frames) if ("k", "int") in s_]
+    names = rng.sample(VIEW_NAMES, 2)
+    if tables and rng.random() < 0.5:
+        names[1] = "tb"
+    a, b = names
+    events.append({"ev": "register", "name": variant(rng, a), "i": rng.choice(ok)})
+    events.append({"ev": "register", "name": variant(rng, b), "i": rng.choice(ok)})
+    if rng.random() < 0.4:
+        events.append({"ev": "register", "name": variant(rng, rng.choice(names)), "i": rng.choice(ok)})
+    raw = []
+    for tag, sql, eng in rng.sample(RAW_TEMPLATES, 8):
+        if b == "tb" and "WITH {bl} AS" in sql:
+            continue  # a CTE named like the engine table that a view reads: the listed finding H_noCteCapturesViewTable
+        va, vb = variant(rng, a), variant(rng, b)
+        fill = {"a": va, "b": vb, "al": a, "bl": b}
+        raw.append({"tag": tag, "sql": sql.format(**fill), "engine": eng.format(**fill) if eng else None})
+    return {"tables": tables, "events": events, "raw": raw}
+
+
+def eval_raw(c: dict) -> dict:
+    impl = run_impl(c)
+    if impl["stop"] is not None or any(isinstance(o, dict) and o.get("err") and o.get("kind") == "register" for o in impl["obs"]):
+        return {"case": c, "skipped": True, "rows": []}
+    orc = run_oracle(c, raw=True)
+    rows = []
+    for st, io, oo in zip(c["raw"], impl["raw"], orc):
+        rows.append({"tag": st["tag"], "sql": st["sql"], "impl": io, "engine": oo, "agree": same(io, oo)})
+    return {"case": c, "skipped": False, "rows": rows}
 
 
 # ------------------------------------------------------------------------------------------------
@@ -712,7 +1038,22 @@ def evaluate(cases: t.List[dict], workers: int = 0) -> t.List[dict]:
         for j, (ev, lo) in enumerate(zip(c["events"], o["events"])):
             if ev["ev"] == "register":
                 io = impl["obs"][j]
-                checks.append({"event": j, "kind": "register", "impl_keys": io.get("keys"), "model_keys": sorted(lo.get("keys", [])), "err": io.get("err")})
+                checks.append(
+                    {
+                        "event": j,
+                        "kind": "register",
+                        "impl_keys": io.get("keys"),
+                        "impl_listed": io.get("listed"),
+                        "model_keys": sorted(lo.get("keys", [])),
+                        "err": io.get("err"),
+                        # catalog.listColumns(view) against the model's catalog entry and against df.columns (the specification)
+                        "impl": {"cols": io.get("cols"), "rows": []},
+                        "model": {"cols": lo.get("cols"), "rows": []},
+                        "spec": {"cols": io.get("df_cols"), "rows": []},
+                        "model_df_cols": lo.get("dfCols"),
+                        "scope": ["H_reregisterKeepsColumns"] if lo.get("stale") else [],
+                    }
+                )
                 continue
             m = lean_table(lo["model"])
             sp = lean_table(lo["spec"])
@@ -745,8 +1086,14 @@ def classify(r: dict, known: t.Dict[str, dict]) -> t.Dict[str, t.Any]:
     out: t.Dict[str, t.Any] = {"model_bad": [], "oracle_bad": [], "known": set(), "viol": [], "reg_bad": []}
     for ch in r["checks"]:
         if ch["kind"] == "register":
-            if ch["err"] or ch["impl_keys"] != ch["model_keys"]:
+            if ch["err"] or ch["impl_keys"] != ch["model_keys"] or ch["impl_listed"] != ch["model_keys"] or ch["impl"]["cols"] != ch["model"]["cols"] or ch["spec"]["cols"] != ch["model_df_cols"]:
                 out["reg_bad"].append(ch)
+            if not ch["err"] and ch["impl"]["cols"] != ch["spec"]["cols"]:
+                # the catalog reports other columns for the view than the DataFrame has
+                if ch["scope"] and ch["impl"]["cols"] == ch["model"]["cols"] and all(h in known for h in ch["scope"]):
+                    out["known"].update(ch["scope"])
+                else:
+                    out["viol"].append(ch)
             continue
         if not ch["impl_eq_model"]:
             out["model_bad"].append(ch)
@@ -810,6 +1157,12 @@ def shrink_candidates(c: dict) -> t.List[dict]:
                     nq = copy.deepcopy(q)
                     nq[bpath]["where"] = None
                     out.append(dict(c, events=evs[:j] + [dict(e, q=nq)] + evs[j + 1 :]))
+            for bpath in ["final"] + list(range(len(q["ctes"]))):
+                b = q["final"] if bpath == "final" else q["ctes"][bpath][1]
+                if isinstance(b, dict) and b.get("top"):
+                    nq = copy.deepcopy(q)
+                    (nq["final"] if bpath == "final" else nq["ctes"][bpath][1]).pop("top")
+                    out.append(dict(c, events=evs[:j] + [dict(e, q=nq)] + evs[j + 1 :]))
             for ci in range(len(q["ctes"])):
                 nq = copy.deepcopy(q)
                 name = nq["ctes"][ci][0]
@@ -821,9 +1174,36 @@ def shrink_candidates(c: dict) -> t.List[dict]:
                     nq = copy.deepcopy(q)
                     nq["ctes"][ci][1]["where"] = None
                     out.append(dict(c, events=evs[:j] + [dict(e, q=nq)] + evs[j + 1 :]))
-    if c.get("tables"):
+    for n, tb in (c.get("tables") or {}).items():
+        for i in range(len(tb["rows"])):
+            out.append(dict(c, tables=dict(c["tables"], **{n: dict(tb, rows=tb["rows"][:i] + tb["rows"][i + 1 :])})))
+    if c.get("tables") and not any(e["ev"] in ("table", "sql") for e in evs):
         out.append(dict(c, tables={}))
     return out
+
+
+def shrink_raw(c: dict, rounds: int = 6) -> dict:
+    """drop events / rows while the one extra statement still differs from the engine's answer"""
+
+    def fails(x: dict) -> bool:
+        try:
+            r = eval_raw(x)
+        except Exception:
+            return False
+        return (not r["skipped"]) and any(not row["agree"] for row in r["rows"])
+
+    best = c
+    for _ in range(rounds):
+        nxt = None
+        for cand in shrink_candidates({k: v for k, v in best.items() if k != "raw"}):
+            cand = dict(cand, raw=best["raw"])
+            if fails(cand):
+                nxt = cand
+                break
+        if nxt is None:
+            break
+        best = nxt
+    return best
 
 
 def shrink(c: dict, failing: t.Callable[[dict], bool], rounds: int = 10) -> dict:
@@ -897,7 +1277,27 @@ def live_decisions() -> t.Dict[str, str]:
     out["sqlWrapsResult"] = "true" if wrapped else "false"
     d2 = s.sql("with vs as (select 5 as k) select vs.k as k from vs")
     r = [tuple(x) for x in d2.collect()]
-    out["spliceSkipsCteBound"] = "true" if r == [(5,)] else "false"
+    # … by scope: inside its own definition the name still means the view (rows k = 1, 2 of `a`, filtered k > 0)
+    try:
+        r3 = sorted(tuple(x) for x in s.sql("with vs as (select x.k as k from vs as x where x.k > 1) select vs.k as k from vs").collect())
+    except Exception:
+        r3 = None
+    out["spliceSkipsCteBound"] = "true" if r == [(5,)] and r3 == [(2,)] else "false"
+    # the leaf -> CTE conversion, on a leaf that carries every clause
+    full = a.where("k > 0").distinct().orderBy("k").limit(5)
+
+    def set_args(x: t.Any) -> t.List[str]:
+        return sorted(k for k, v in x.args.items() if v not in (None, [], False))
+
+    before = set_args(full.expression)
+    conv = full._convert_leaf_to_cte()
+    body = conv.expression.ctes[-1].this
+    out["cteClearedArgs"] = "[" + ", ".join(json.dumps(k) for k in before if k not in set_args(body)) + "]"
+    out["wrapKeepsChain"] = "true" if [c.alias_or_name for c in conv.expression.ctes[:-1]] == [c.alias_or_name for c in full.expression.ctes] else "false"
+    leaf_args = [k for k in set_args(conv.expression) if k != "with"]
+    out["wrapLeafBuilders"] = "[" + ", ".join(json.dumps({"from": "from_", "expressions": "select"}.get(k, k)) for k in sorted(leaf_args, key=lambda k: k != "from")) + "]"
+    from_ok = conv.expression.args["from"].this.name == conv.expression.ctes[-1].alias_or_name
+    out["wrapSelectsOuterColumns"] = "true" if from_ok and [x.alias_or_name for x in conv.expression.expressions] == [x.alias_or_name for x in body.expressions] and all(isinstance(x, exp.Column) for x in conv.expression.expressions) else "false"
     return out
 
 
@@ -986,6 +1386,229 @@ def family_lineage(rng: random.Random) -> dict:
     return {"tables": {}, "events": events}
 
 
+def _items(alias: str, cols: t.Sequence[str], names: t.Optional[t.Sequence[str]] = None) -> dict:
+    return {"k": "items", "items": [[n_, ("col", f"{alias}.{c_}")] for c_, n_ in zip(cols, names or cols)]}
+
+
+def _rows(rng: random.Random, sch: list, n: int = 5) -> list:
+    """rows with NULLs and duplicates (so that DISTINCT, ORDER BY … LIMIT and GROUP BY all make a difference)"""
+    rows = X.gen_table(rng, dict(sch), n) or [[1 if ty == "int" else "a" for _, ty in sch]]
+    rows = rows + [list(rng.choice(rows)) for _ in range(2)]
+    rng.shuffle(rows)
+    return rows
+
+
+def reads_of(rng: random.Random, name: str, sch: list, other: t.Optional[t.Tuple[str, list]], nframes: int, skeys: t.Optional[list]) -> t.List[dict]:
+    """every way a history can look at the view `name` (columns `sch`): session.table, SQL with `*` / a column list /
+    an aggregate / a CTE / a subquery / a join with another view, and DataFrame steps on what session.table returns"""
+    cols = [c_ for c_, _ in sch]
+    ints = [c_ for c_, ty in sch if ty == "int"]
+    evs: t.List[dict] = []
+    w = lambda: variant(rng, name)  # noqa: E731
+    shapes = [
+        {"ctes": [], "final": _blk([{"t": w(), "a": None}], STAR)},
+        {"ctes": [], "final": _blk([{"t": w(), "a": "x"}], _items("x", cols))},
+        {"ctes": [], "final": _blk([{"t": w(), "a": "x"}], {"k": "agg", "keys": [], "aggs": [["n", "countStar", None]] + ([["m", "sum", f"x.{ints[0]}"]] if ints else [])})},
+        {"ctes": [["c", _blk([{"t": w(), "a": None}], STAR)]], "final": _blk([{"t": "c", "a": "y"}], _items("y", cols))},
+        {"ctes": [], "final": _blk([{"sub": _blk([{"t": w(), "a": "x"}], _items("x", cols)), "a": "q"}], STAR)},
+    ]
+    if other is not None:
+        on, osch = other
+        jc = [c_ for c_, ty in sch if (c_, ty) in osch]
+        if jc:
+            oc = [c_ for c_, _ in osch]
+            join = _blk(
+                [{"t": w(), "a": "x"}, {"t": on, "a": "y"}],
+                {"k": "items", "items": [[f"a{i}", ("col", f"x.{c_}")] for i, c_ in enumerate(cols)] + [["b0", ("col", f"y.{oc[-1]}")]]},
+                on=("bin", "eq", ("col", f"x.{jc[0]}"), ("col", f"y.{jc[0]}")),
+            )
+            shapes.append({"ctes": [], "final": join})
+    k = 3 if len(shapes) > 3 else len(shapes)
+    for q in rng.sample(shapes, k):
+        evs.append({"ev": "sql", "q": q})
+    evs.append({"ev": "table", "name": w()})
+    t_idx = nframes + len(evs) - 1
+    if skeys:
+        evs.append({"ev": "transform", "i": t_idx, "op": {"k": "limit", "n": rng.randint(1, 2)}})
+    else:
+        op, _, _ = gen_transform(rng, sch, None)
+        evs.append({"ev": "transform", "i": t_idx, "op": op})
+    return evs
+
+
+LAST_STEPS = ["distinct", "dropDuplicates", "sort", "sortLimit", "agg", "where", "select", "selectDistinct", "whereSortLimit"]
+
+
+def family_leaf(rng: random.Random, last: t.Optional[str] = None) -> dict:
+    """what a registered frame's *last* steps are must not matter: the frame ends with distinct / dropDuplicates /
+    orderBy / orderBy+limit / groupBy.agg / where / select (after 0-1 other steps), is registered, and is then read in
+    every way; then the name is re-registered with another such frame and read again"""
+    sch = rng.choice(SCHEMAS)
+    events: t.List[dict] = [{"ev": "create", "schema": sch, "rows": _rows(rng, sch, 5)}]
+    osch = rng.choice(SCHEMAS)
+    events.append({"ev": "create", "schema": osch, "rows": _rows(rng, osch, 3)})
+    events.append({"ev": "register", "name": "vo", "i": 1})
+    nframes = 2
+
+    def build(i: int, cur: list, last_: str) -> t.Tuple[int, list, t.Optional[list]]:
+        nonlocal nframes
+        steps: t.List[dict] = []
+        if rng.random() < 0.4:
+            op, cur2, _ = gen_transform(rng, cur, None)
+            if op["k"] != "limit" and unique([c_ for c_, _ in cur2]):
+                steps.append(op)
+                cur = cur2
+        ks = [[c_, rng.random() < 0.5] for c_, _ in cur]
+        rng.shuffle(ks)
+        g = X.Gen(rng, dict(cur))
+        keys_out: t.Optional[list] = None
+        if last_ in ("distinct", "dropDuplicates"):
+            steps.append({"k": "distinct", "via": last_})
+        elif last_ == "sort":
+            steps.append({"k": "sort", "keys": ks})
+            keys_out = ks
+        elif last_ == "sortLimit":
+            steps += [{"k": "sort", "keys": ks}, {"k": "limit", "n": rng.randint(1, 2)}]
+        elif last_ == "whereSortLimit":
+            steps += [{"k": "where", "p": g.bool_expr(1)}, {"k": "sort", "keys": ks}, {"k": "limit", "n": rng.randint(1, 2)}]
+        elif last_ == "where":
+            steps.append({"k": "where", "p": g.bool_expr(rng.choice([1, 2]))})
+        elif last_ == "selectDistinct":
+            sub = [cur[0]] if len(cur) > 1 else cur
+            steps += [{"k": "select", "items": [[c_, ("col", c_)] for c_, _ in sub]}, {"k": "distinct", "via": "distinct"}]
+            cur = sub
+        else:
+            for _ in range(8):
+                op, cur2, _ = gen_transform(rng, cur, None)
+                if op["k"] == ("agg" if last_ == "agg" else "select") and unique([c_ for c_, _ in cur2]):
+                    steps.append(op)
+                    cur = cur2
+                    break
+            else:
+                steps.append({"k": "distinct", "via": "distinct"})
+        for op in steps:
+            events.append({"ev": "transform", "i": i, "op": op})
+            i = nframes
+            nframes += 1
+        return i, cur, keys_out
+
+    name = rng.choice(VIEW_NAMES)
+    i, cur, ks = build(0, list(sch), last or rng.choice(LAST_STEPS))
+    events.append({"ev": "register", "name": variant(rng, name), "i": i})
+    rd = reads_of(rng, name, cur, ("vo", osch), nframes, ks)
+    events += rd
+    nframes += sum(1 for e in rd if e["ev"] != "register")
+    if rng.random() < 0.5:
+        base = rng.choice([0, 1])
+        i2, cur2, ks2 = build(base, list([sch, osch][base]), rng.choice(LAST_STEPS))
+        events.append({"ev": "register", "name": variant(rng, name), "i": i2})
+        rd = reads_of(rng, name, cur2, None, nframes, ks2)
+        events += rd[:3]
+    return {"tables": {}, "events": events}
+
+
+def family_shadow(rng: random.Random) -> dict:
+    """an engine table `tb`; frames read from it (session.table / session.sql, possibly transformed) are registered as
+    views; then a temp view named `tb` hides the table.  Frames and views built before keep reading the table, later
+    lookups of `tb` see the view — also inside ONE statement that mentions both"""
+    sch = rng.choice(SCHEMAS[:3])
+    cols = [c_ for c_, _ in sch]
+    tables = {"tb": {"schema": sch, "rows": _rows(rng, sch, 4)}}
+    events: t.List[dict] = []
+    nframes = 0
+    if rng.random() < 0.6:
+        events.append({"ev": "table", "name": "tb"})
+    else:
+        events.append({"ev": "sql", "q": {"ctes": [], "final": _blk([{"t": "tb", "a": "x"}], _items("x", cols))}})
+    nframes += 1
+    src = 0
+    if rng.random() < 0.6:
+        op, cur, _ = gen_transform(rng, sch, None)
+        if op["k"] in ("where", "distinct"):
+            events.append({"ev": "transform", "i": 0, "op": op})
+            src = nframes
+            nframes += 1
+    events.append({"ev": "register", "name": variant(rng, "vb"), "i": src})
+    # the frame that will hide the table: other rows, possibly other columns (the join column k is in every schema)
+    nsch = sch if rng.random() < 0.5 else rng.choice(SCHEMAS[:3])
+    events.append({"ev": "create", "schema": nsch, "rows": _rows(rng, nsch, 3)})
+    hid = nframes
+    nframes += 1
+    events.append({"ev": "register", "name": variant(rng, "tb"), "i": hid})
+    ncols = [c_ for c_, _ in nsch]
+    a, b = ("vb", "tb") if rng.random() < 0.5 else ("tb", "vb")
+    ca, cb = (cols, ncols) if a == "vb" else (ncols, cols)
+    both = _blk(
+        [{"t": a, "a": "x"}, {"t": b, "a": "y"}],
+        {"k": "items", "items": [["a0", ("col", f"x.{ca[-1]}")], ["b0", ("col", f"y.{cb[-1]}")], ["k", ("col", "x.k")]]},
+        on=("bin", "eq", ("col", "x.k"), ("col", "y.k")) if rng.random() < 0.6 else None,
+    )
+    shapes = [
+        {"ctes": [], "final": both},
+        {"ctes": [["c", _blk([{"t": "vb", "a": "x"}], _items("x", cols))]], "final": _blk([{"t": "c", "a": "x"}, {"t": "tb", "a": "y"}], {"k": "items", "items": [["a0", ("col", f"x.{cols[-1]}")], ["b0", ("col", f"y.{ncols[-1]}")]]})},
+        {"ctes": [], "final": _blk([{"sub": _blk([{"t": "tb", "a": "x"}], _items("x", ncols)), "a": "q"}, {"t": "vb", "a": "y"}], {"k": "items", "items": [["a0", ("col", f"q.{ncols[-1]}")], ["b0", ("col", f"y.{cols[-1]}")]]})},
+        {"ctes": [], "final": _blk([{"t": "vb", "a": None}], STAR)},
+        {"ctes": [], "final": _blk([{"t": variant(rng, "tb"), "a": None}], STAR)},
+    ]
+    for q in [shapes[0]] + rng.sample(shapes[1:], 2):
+        events.append({"ev": "sql", "q": q})
+        nframes += 1
+    events.append({"ev": "table", "name": "vb"})
+    events.append({"ev": "table", "name": variant(rng, "tb")})
+    if rng.random() < 0.5:
+        events.append({"ev": "sql", "q": shapes[0]})
+    return {"tables": tables, "events": events}
+
+
+def family_scope(rng: random.Random) -> dict:
+    """a CTE of the statement named like a registered view, referred to from where it is and from where it is not in
+    scope: its own definition (`WITH va AS (SELECT … FROM va …)`), an earlier definition, a later one, the main query"""
+    sa, sb = rng.choice(SCHEMAS), rng.choice(SCHEMAS)
+    events: t.List[dict] = [
+        {"ev": "create", "schema": sa, "rows": _rows(rng, sa, 4)},
+        {"ev": "create", "schema": sb, "rows": _rows(rng, sb, 3)},
+        {"ev": "register", "name": variant(rng, "va"), "i": 0},
+        {"ev": "register", "name": "vb", "i": 1},
+    ]
+    ca, cb = [c_ for c_, _ in sa], [c_ for c_, _ in sb]
+    ga = X.Gen(rng, {f"x.{c_}": ty for c_, ty in sa})
+    inc = [["k", ("bin", "add", ("col", "x.k"), ("lit", 100))]]
+    lit = {"lit": {"cols": ["k"], "row": [rng.choice([7, 10])]}}
+    self_ref = _blk([{"t": variant(rng, "va"), "a": "x"}], _items("x", ca), where=ga.bool_expr(1))
+    shapes = [
+        # the CTE refines the view it hides
+        {"ctes": [["va", self_ref]], "final": _blk([{"t": "va", "a": None}], STAR)},
+        {"ctes": [["va", self_ref]], "final": _blk([{"t": "va", "a": "x"}, {"t": "vb", "a": "y"}], {"k": "items", "items": [["k", ("col", "x.k")], ["b0", ("col", f"y.{cb[-1]}")]]}, on=("bin", "eq", ("col", "x.k"), ("col", "y.k")))},
+        # an earlier definition reads the view, a later one takes its name
+        {"ctes": [["c", _blk([{"t": "va", "a": "x"}], _items("x", ["k"]))], ["va", lit]], "final": _blk([{"t": "c", "a": "x"}, {"t": "va", "a": "y"}], {"k": "items", "items": [["a0", ("col", "x.k")], ["b0", ("col", "y.k")]]})},
+        # … and is built from the earlier one
+        {"ctes": [["c", _blk([{"t": "va", "a": "x"}], _items("x", ["k"]), where=ga.bool_expr(1))], ["va", _blk([{"t": "c", "a": "x"}], {"k": "items", "items": inc})]], "final": _blk([{"t": "c", "a": "x"}, {"t": "va", "a": "y"}], {"k": "items", "items": [["a0", ("col", "x.k")], ["b0", ("col", "y.k")]]}, on=("bin", "eq", ("bin", "add", ("col", "x.k"), ("lit", 100)), ("col", "y.k")))},
+        # two views, each hidden by a CTE that reads the *other* name: `vb` inside `va`'s definition is still the view
+        {"ctes": [["va", _blk([{"t": "vb", "a": "x"}], _items("x", ["k"]))], ["vb", _blk([{"t": "va", "a": "x"}], {"k": "items", "items": inc})]], "final": _blk([{"t": "vb", "a": None}], STAR)},
+        # in scope: a later definition and the main query see the CTE, not the view
+        {"ctes": [["va", lit], ["d", _blk([{"t": "va", "a": "x"}], _items("x", ["k"]))]], "final": _blk([{"t": "d", "a": "x"}, {"t": "va", "a": "y"}], {"k": "items", "items": [["a0", ("col", "x.k")], ["b0", ("col", "y.k")]]})},
+        # self reference in a subquery of the definition
+        {"ctes": [["va", _blk([{"sub": self_ref, "a": "q"}], _items("q", ["k"]))]], "final": _blk([{"t": "va", "a": "x"}], {"k": "agg", "keys": [], "aggs": [["n", "countStar", None]]})},
+    ]
+    picks = rng.sample(shapes, 3)
+    rereg = rng.random() < 0.5
+    if rereg:
+        picks[0] = shapes[0]  # same columns as the view it refines
+    for q in picks:
+        events.append({"ev": "sql", "q": q})
+    # the result of such a statement registered as a view of its own and read back (without CTEs: a CTE named like
+    # one inside the view's chain is the listed finding H_noCteNameClash)
+    if rereg:
+        events.append({"ev": "register", "name": "vc", "i": 2})
+        events.append({"ev": "sql", "q": {"ctes": [], "final": _blk([{"t": "vc", "a": "x"}, {"t": "va", "a": "y"}], {"k": "items", "items": [["a0", ("col", f"x.{ca[-1]}")], ["b0", ("col", f"y.{ca[-1]}")]]}, on=("bin", "eq", ("col", "x.k"), ("col", "y.k")))}})
+        events.append({"ev": "table", "name": "vc"})
+    else:
+        q, _ = QGen(rng, {"va": sa, "vb": sb}, {}, clash=0.9).query()
+        events.append({"ev": "sql", "q": q})
+    events.append({"ev": "table", "name": "va"})
+    return {"tables": {}, "events": events}
+
+
 def known_entries() -> t.Dict[str, dict]:
     known = {e["id"]: e for e in vlib.known_findings(ID)}
     extra = os.path.join(vlib.VERIF, "tools", "props", "c13.known.json")
@@ -1005,9 +1628,9 @@ def cases_for(ctx: Ctx) -> t.List[dict]:
                 c = json.load(open(os.path.join(corpus_dir, fn)))
                 c["origin"] = "corpus:" + fn
                 cases.append(c)
-    for fam, k in ((family_permute, 24), (family_lineage, 12)):
-        for _ in range(k * (4 if ctx.thorough else 1)):
-            c = fam(ctx.rng)
+    for fam, k in ((family_permute, 20), (family_lineage, 10), (family_leaf, 3 * len(LAST_STEPS)), (family_shadow, 20), (family_scope, 24)):
+        for j in range(k * (4 if ctx.thorough else 1)):
+            c = fam(ctx.rng, LAST_STEPS[j % len(LAST_STEPS)]) if fam is family_leaf else fam(ctx.rng)
             c["origin"] = fam.__name__
             cases.append(c)
     n = 2500 if ctx.thorough else 240
@@ -1050,6 +1673,8 @@ def run(ctx: Ctx) -> None:
 
     cases = cases_for(ctx)
     res = evaluate(cases)  # forks workers: nothing in this process has touched DuckDB yet
+    raw_cases = [gen_raw_case(ctx.rng) for _ in range(160 if ctx.thorough else 40)]
+    raw_res = vlib.parallel_map(eval_raw, raw_cases)
     gen_info = check_gen(ctx)
 
     kinds: t.Dict[str, int] = {}
@@ -1156,6 +1781,31 @@ def run(ctx: Ctx) -> None:
         ch2 = bad[0] if bad else ch
         vlib.report_violation(ctx, replay_dict(rr if bad else r, ch2, ctx, "session.sql / session.table result differs from the specification (views denote the registered frames' rows)"))
         reported += 1
+    # statement shapes the Lean statement language does not have (predicate subqueries, HAVING, a WITH inside a derived
+    # table, …): the implementation against the engine run directly — validated by execution only
+    raw_n = raw_bad = 0
+    raw_tags: t.Dict[str, int] = {}
+    for rr_ in raw_res:
+        for row in rr_["rows"]:
+            raw_n += 1
+            raw_tags[row["tag"]] = raw_tags.get(row["tag"], 0) + 1
+            if not row["agree"]:
+                raw_bad += 1
+                if reported < 4:
+                    c_ = dict(rr_["case"], raw=[st for st in rr_["case"]["raw"] if st["sql"] == row["sql"]])
+                    c_ = shrink_raw(c_)
+                    vlib.report_violation(
+                        ctx,
+                        {
+                            "kind": "session.sql result differs from what the engine returns for the statement over tables holding the views' rows",
+                            "program": show_case(c_) + [f"session.sql({c_['raw'][0]['sql']!r})"],
+                            "raw_case": c_,
+                            "implementation": row["impl"],
+                            "duckdb_direct": row["engine"],
+                            "broken": ctx.broken,
+                        },
+                    )
+                    reported += 1
     if ctx.broken and not reported:
         first = (model_bad or oracle_bad or reg_bad or [None])[0]
         vlib.report_violation(
@@ -1175,9 +1825,14 @@ def run(ctx: Ctx) -> None:
             "evaluations": len(res),
             "frame_observations": n_checks,
             "distinct_nontrivial": len(nontrivial),
-            "rule": "corpus, then two targeted families (a view re-registered with permuted / changed columns followed by `*` at top level, in a CTE, in a subquery; a view built from another view, that view re-registered, one statement joining both in either order), then random histories: 1-3 createDataFrame, a registration, then up to 5 more events drawn from "
-            "register / re-register (3 names, case variants) / session.table / session.sql(generated SELECT: projection, filter, join, "
-            "aggregate, CTE, subquery, UNION ALL in a subquery, *) / DataFrame where|select on any earlier frame / join back to a view; "
+            "rule": "corpus, then five targeted families — (1) a view re-registered with permuted / changed columns followed by `*` at top level, in a CTE, in a subquery; "
+            "(2) a view built from another view, that view re-registered, one statement joining both in either order; (3) a frame whose LAST steps are each of distinct / dropDuplicates / "
+            "orderBy / orderBy+limit / where+orderBy+limit / groupBy.agg / where / select / select+distinct, registered and read back in every way (session.table, `*`, column list, aggregate, CTE, subquery, "
+            "join with another view, DataFrame steps on session.table's result incl. limit over a sorted view), then re-registered; (4) an engine table, frames read from it registered as views, then a temp view "
+            "hiding the table's name, statements over both in one query; (5) CTEs named like registered views, referenced from their own definition, from earlier and from later definitions — "
+            "then random histories: 1-3 createDataFrame (+ session.table of an engine table), a registration, then up to 5 more events drawn from "
+            "register / re-register (3 view names + the engine table's name, case variants) / session.table / session.sql(generated SELECT: projection, filter, join, "
+            "aggregate, CTE (15% named like a view), subquery, UNION ALL in a subquery, *, ORDER BY all columns + LIMIT) / DataFrame where|select|distinct|dropDuplicates|orderBy|limit after orderBy|groupBy.agg on any earlier frame / join back to a view; "
             "every frame is collected when built and again at the end of the history; non-trivial = distinct (statement, non-empty result) "
             "of sql / table / join-back events",
             "traces_validated_against_impl": n_model_ok,
@@ -1190,6 +1845,7 @@ def run(ctx: Ctx) -> None:
             "event_kind_histogram": kinds,
             "statement_shape_histogram": qshapes,
             "history_length_histogram": {str(k): v for k, v in sorted(lens.items())},
+            "execution_only_statements": {"compared": raw_n, "differ": raw_bad, "by_shape": raw_tags, "note": "predicate subqueries (IN / EXISTS / scalar), HAVING, LEFT JOIN, WITH inside a derived table, CTEs named like views inside predicates: implementation vs DuckDB run directly; not in the Lean statement language"},
             "gen_vs_live": gen_info,
             "samples": [{"history": show_case(r["case"]), "last_result": next((ch["impl"] for ch in reversed(r["checks"]) if ch["kind"] != "register"), None)} for r in res[::step][:4]],
         }
@@ -1197,13 +1853,23 @@ def run(ctx: Ctx) -> None:
     ctx.assumptions += [
         "parsing / qualifying the user's SQL is sqlglot's: the statement enters the model as the parsed tree the generator rendered to text",
         "DuckDB evaluates a SELECT tree as `evalBody` says and binds a WITH list by name (forward references legal) as `resolveFuel` says — validated on every generated statement against DuckDB run directly over real tables",
+        "the statement the user writes is read the way Spark reads a WITH list (`evalLex`: a CTE is visible to later definitions and to the main query; confirmed with live PySpark 3.5.9); the direct DuckDB run gets the same statement with that scoping made explicit (every CTE renamed apart, references bound to the nearest earlier CTE); statements in which a definition refers to itself / a later CTE that is NOT a temp view are not generated (Spark rejects them or reads a table, DuckDB binds them to the later CTE)",
+        "ORDER BY (DataFrame orderBy, or in a generated statement) always lists every column, so that a following LIMIT determines the rows up to identical ones; Spark's null ordering is spelled out in generated SQL; a table's row list is ordered in the model, and a LIMIT directly over a CTE / view that ends in ORDER BY takes its first rows (DuckDB keeps the order of a CTE scan)",
+        "both DuckDB connections run with `SET threads=1; SET disabled_optimizers='join_filter_pushdown'`: DuckDB 1.2.2 pushes a hash join's dynamic filter below ORDER BY … LIMIT of a CTE on the probe side and then returns rows outside the first n (varying with several threads) — an engine defect seen when the generated text is run directly, independent of sqlframe",
         "CTE names are content hashes: a fresh CTE name is not bound or mentioned in the frame it closes (hypothesis `FreshName`; CRC32 collisions excluded)",
         "generated statements never define a CTE whose body refers to the CTE's own name, and CTE / alias names differ from column names",
-        "row order of results is not compared (no ORDER BY in the generated statements)",
+        "row order of results is not compared (bags)",
     ]
 
 
 def replay(ctx: Ctx, rp: dict) -> None:
+    if rp.get("raw_case"):
+        r = eval_raw(rp["raw_case"])
+        for row in r["rows"]:
+            print(json.dumps(row, default=str))
+        if any(not row["agree"] for row in r["rows"]):
+            vlib.report_violation(ctx, dict(rp, implementation=r["rows"][0]["impl"], duckdb_direct=r["rows"][0]["engine"]))
+        return
     c = rp.get("case")
     if not c:
         print("replay names a broken obligation, not an input:", rp.get("broken"))
